@@ -47,6 +47,28 @@ theorem sub_delivers_iff (h : List SubOp) (msg : List UInt8) :
   · rintro ⟨p, hp, hc⟩
     exact ⟨p, hp, by rwa [trie_refines_multiset]⟩
 
+/-- subscribe followed by unsubscribe of the same topic is observationally the identity, on ANY trie (not only reachable
+ones): every count and therefore every match decision is what it was -/
+theorem subscribe_unsubscribe_restores (p : List UInt8) (t : Trie) (msg : List UInt8) :
+    ((t.subscribe p).unsubscribe p).1.matches msg = t.matches msg := by
+  rw [Bool.eq_iff_iff, matches_iff, matches_iff]
+  have key : ∀ q, ((t.subscribe p).unsubscribe p).1.countAt q = t.countAt q := by
+    intro q
+    rw [countAt_unsubscribe, countAt_subscribe]
+    split <;> omega
+  constructor
+  · rintro ⟨q, hq, hc⟩; exact ⟨q, hq, by rwa [key] at hc⟩
+  · rintro ⟨q, hq, hc⟩; exact ⟨q, hq, by rwa [key]⟩
+
+/-- what a SUB socket receives depends only on the multiset of active subscriptions, not on the order or the detours of the
+history that produced it: two histories with the same multiplicities match exactly the same messages -/
+theorem delivery_depends_only_on_the_multiset (h₁ h₂ : List SubOp) (heq : ∀ p, absCount p h₁ = absCount p h₂)
+    (msg : List UInt8) : (trieAfter h₁).matches msg = (trieAfter h₂).matches msg := by
+  rw [Bool.eq_iff_iff, sub_delivers_iff, sub_delivers_iff]
+  constructor
+  · rintro ⟨q, hq, hc⟩; exact ⟨q, hq, by rwa [heq] at hc⟩
+  · rintro ⟨q, hq, hc⟩; exact ⟨q, hq, by rwa [heq]⟩
+
 /-- the empty subscription matches everything -/
 theorem empty_subscription_matches_all (h : List SubOp) (hp : 0 < absCount [] h) (msg : List UInt8) :
     (trieAfter h).matches msg = true := by
